@@ -45,6 +45,8 @@ def balanced_sym(p):
     kw = {}
     if p["explicit_div"]:
         kw["divisive_weights"] = divisive
+    if p.get("keep_index"):
+        kw["ignore_index"] = False      # pixel output labelled with the pixel ids instead of 0..k-1
     sel = clr.matrix(balance=name if name != "weight" else True, sparse=(form == "sparse"), as_pixels=(form == "pixels"), **kw)
     out = sel[i0:i1, j0:j1]
     cover("rectangular", or_(i0 != j0, i1 != j1))
@@ -110,6 +112,8 @@ def balanced_real(p, inputs):
     kw = {}
     if p["explicit_div"]:
         kw["divisive_weights"] = divisive
+    if p.get("keep_index"):
+        kw["ignore_index"] = False
     out = clr.matrix(balance=name if name != "weight" else True, sparse=(form == "sparse"), as_pixels=(form == "pixels"), **kw)[i0:i1, j0:j1]
     fw = 1 / ws if divisive else ws
     full = np.zeros((n, n))
@@ -148,6 +152,9 @@ def _cases(tier):
                     continue
                 for upper in ((True, False) if name == "weight" else (True,)):
                     out.append(dict(n=n, K=K, upper=upper, form=form, name=name, divisive=divisive, explicit_div=explicit))
+    # pixel output that keeps the pixel ids as row labels (ignore_index=False), windows that select a later pixel only
+    for upper in (True, False):
+        out.append(dict(n=2, K=2, upper=upper, form="pixels", name="weight", divisive=False, explicit_div=False, keep_index=True))
     return out
 
 
